@@ -48,18 +48,16 @@ pub(crate) fn parse_directive(jsx_attr: &JSXAttr, is_component: bool) -> Directi
                 .trim_start_matches('-')
                 .split('_');
             (
-                splitted.next().unwrap_or(&*ident.sym).to_ascii_lowercase(),
-                splitted.next(),
+                lowercase_first_letter(splitted.next().unwrap_or(&*ident.sym)),
+                // without namespace there's no argument: all `_` suffixes are modifiers
+                None,
                 splitted,
             )
         }
         JSXAttrName::JSXNamespacedName(JSXNamespacedName { ns, name, .. }) => {
             let mut splitted = name.sym.split('_');
             (
-                ns.sym
-                    .trim_start_matches('v')
-                    .trim_start_matches('-')
-                    .to_ascii_lowercase(),
+                lowercase_first_letter(ns.sym.trim_start_matches('v').trim_start_matches('-')),
                 Some(splitted.next().unwrap_or(&*name.sym)),
                 splitted,
             )
@@ -141,6 +139,14 @@ pub(crate) fn parse_directive(jsx_attr: &JSXAttr, is_component: bool) -> Directi
         modifiers: modifiers.and_then(|modifiers| transform_modifiers(modifiers, false)),
         value,
     })
+}
+
+fn lowercase_first_letter(name: &str) -> String {
+    let mut chars = name.chars();
+    match chars.next() {
+        Some(first) => format!("{}{}", first.to_ascii_lowercase(), chars.as_str()),
+        None => String::new(),
+    }
 }
 
 fn parse_modifiers(exprs: &[Option<ExprOrSpread>]) -> BTreeSet<Atom> {
